@@ -13,7 +13,7 @@ Lemma src_timestamp_char t tb :
   exists s' e', Source.buffer_timestamp t tb = Ok (TimeInterval s' e') /\
     s' == pymax (t - tb) 0 /\ e' == t + tb.
 Proof.
-  unfold Source.buffer_timestamp, mk_TimeInterval. do 2 eexists. split; [reflexivity|].
+  autounfold with src; unfold mk_TimeInterval. do 2 eexists. split; [reflexivity|].
   unfold pymax; split; q_crush.
 Qed.
 
@@ -21,7 +21,7 @@ Lemma src_interval_char s e tb :
   exists s' e', Source.buffer_interval (s, e) tb = Ok (TimeInterval s' e') /\
     s' == pymax (s - tb) 0 /\ e' == e + tb.
 Proof.
-  unfold Source.buffer_interval, mk_TimeInterval. do 2 eexists. split; [reflexivity|].
+  autounfold with src; unfold mk_TimeInterval. do 2 eexists. split; [reflexivity|].
   unfold pymax; split; q_crush.
 Qed.
 
@@ -29,7 +29,7 @@ Lemma src_bbox_char s lo e hi tb fb :
   exists s' lo' e' hi', Source.buffer_bounding_box_geometry (s, lo, e, hi) tb fb = Ok (BBox s' lo' e' hi') /\
     s' == pymax (s - tb) 0 /\ lo' == pymax (lo - fb) 0 /\ e' == e + tb /\ hi' == pymin (hi + fb) MAXF.
 Proof.
-  unfold Source.buffer_bounding_box_geometry, mk_BoundingBox. do 4 eexists. split; [reflexivity|].
+  autounfold with src; unfold mk_BoundingBox. do 4 eexists. split; [reflexivity|].
   pose proof src_max_frequency as HM.
   unfold pymax, pymin; repeat split; q_crush.
 Qed.
